@@ -4,3 +4,4 @@ pub mod ast;
 pub mod gen;
 pub mod rng;
 pub mod scenario;
+pub mod textgen;
